@@ -120,6 +120,31 @@ def packet_events(rep, thorough):
     return ev
 
 
+def replay_banners(rep):
+    """specification -> code: TLC-generated identification strings through the real parser and composer"""
+    import os
+    from cryptoparser.ssh.subprotocol import SshProtocolMessage
+    out = os.path.join(rep.build, 'gen_ssh.ndjson')
+    res = tlc.require_ok(tlc.run('Gen_SshWire', workers=1, env={'OUT_FILE': out}, timeout=300), 'Gen_SshWire')
+    rep.add_tlc(res, 'Gen_SshWire (identification strings)')
+    cases = [json.loads(l) for l in open(out)]
+    for c in cases:
+        wire = bytes(c['wire'])
+        rep.case('banner|' + wire.hex())
+        o, parsed, _ = call(SshProtocolMessage.parse_exact_size, wire)
+        back = wire_ssh.message_abs(parsed) if o == 'ok' else None
+        if back is None or json.dumps(back[1], sort_keys=True) != json.dumps(c['abs'], sort_keys=True):
+            rep.violation('SshProtocolMessage|conformant-encoding-not-recovered|generated',
+                          'a conformant identification string is not parsed to its field values',
+                          {'wire': wire.decode('latin-1'), 'parse': o, 'expected': c['abs'], 'got': back[1] if back else None})
+        elif bytes(parsed.compose()) != wire:
+            rep.violation('SshProtocolMessage|layout-differs-from-specification|generated',
+                          'the parsed identification string composes to other bytes',
+                          {'wire': wire.decode('latin-1'), 'composed': bytes(parsed.compose()).decode('latin-1')})
+    rep.traces += len(cases)
+    rep.extra['generated_banners'] = len(cases)
+
+
 def collect(rep, thorough):
     rng = rep.rng
     pool = objects.vector_item_pool()
@@ -145,6 +170,7 @@ def run(rep):
     thorough = rep.tier == 'thorough'
     res = tlc.require_ok(tlc.run('MC_SshWire', workers=1, timeout=600), 'MC_SshWire')
     rep.add_tlc(res, 'MC_SshWire (padding rule for payload lengths 0..35000)')
+    replay_banners(rep)
     events = collect(rep, thorough)
     for e in events:
         rep.case(digest([e['kind'], e['wire']]))
